@@ -14,4 +14,46 @@ def obligations(ctx):
     out += pick(flushspec.insert_path(ctx), [("B-4", "passive-before-rotate"), ("B-4b", "queue-gets-rotated-table")])
     out += pick(passivespec.passive_set(ctx), [("B-5", "add"), ("B-5b", "prune")])
     out += pick(writerspec.accept_row(ctx), [("B-6", "dedup")])
+    out += scan_views(ctx)
+    return out
+
+
+def scan_views(ctx):
+    """a read must not look at the live segment list before it has taken its view of the passive
+    buffers: publication (list push) precedes the release of the passive copy, so only this order
+    finds every rotated event in at least one of the two places"""
+    import re
+    import z3
+    from .. import oblig, sym
+    from .flushspec import Builder
+    b = Builder(ctx, "query-streaming-scan-{impl#0}-new-{closure#0}.", "StreamingScan::new", {})
+    E, q = b.E, ctx.q
+    r = b.mk("B-7", "StreamingScan::new hands the query plan the shard's shared live-list handle (read lazily while zones are "
+                    "collected, i.e. after the passive-buffer view was taken by StreamingContext::new) - it never reads or copies "
+                    "the live list before that view exists")
+    out = [b.results["B-7"]]
+    if not r:
+        return out
+    plans = oblig.events(E, r"QueryPlan::new$")
+    ctxs = oblig.events(E, r"StreamingContext::new$")
+    if not oblig.need_anchor(r, plans, "QueryPlan::new") or not oblig.need_anchor(r, ctxs, "StreamingContext::new"):
+        return out
+    r.nontrivial = True
+    for ev in plans:
+        r.anchors.append(f"{ev.short}@bb{ev.bb}")
+        if len(ev.args) < 4 or sym.describe(ev.args[3]) not in ("cap:segment_ids", "arg:segment_ids"):
+            r.status = "violated"
+            r.witness = {"what": "the query plan is built on something other than the shard's shared live segment list "
+                                 f"({sym.describe(ev.args[3])[:80] if len(ev.args) > 3 else '?'}): a copy taken before the passive-buffer view "
+                                 "misses a segment published in between, while its passive copy is already released",
+                         "span": f"{ev.span[0]}:{ev.span[1]}" if ev.span else None, "call": ev.func[:100], "path": [], "model": {}}
+            return out
+    # no read of the list in this body at all (the plan reads it later through the shared handle)
+    reads = [e for e in E.events if re.search(r"RwLock::<.*Vec<.*String>>::(read|write)$", e.func)]
+    for e in reads:
+        res, model = q.check(e.reach, domain=E.domain)
+        r.queries += 1
+        if res == z3.sat:
+            oblig.violated(r, E, q, e, model, "the live segment list is read while the scan is set up, before the passive-buffer view exists")
+            return out
     return out
